@@ -67,6 +67,54 @@ pub fn encode(c: &CCircuit) -> Vec<u8> {
     deflate(&packed)
 }
 
+impl CPoly {
+    pub fn indices(&self) -> [usize; 11] {
+        [self.q_m, self.q_l, self.q_r, self.q_o, self.q_f, self.q_c, self.q_arith, self.q_range, self.q_logic, self.q_fixed_group_add, self.q_variable_group_add]
+    }
+}
+
+/// One past the last valid scalar index of a description *produced by the compressor*: the
+/// compressor appends a scalar to the table when it first uses it, so the largest index in use is
+/// the last entry (descriptions without own scalars: no answer).
+pub fn table_end(c: &CCircuit) -> Option<usize> {
+    if c.scalars.is_empty() {
+        return None;
+    }
+    c.polynomials.iter().flat_map(|p| p.indices()).max().map(|m| m + 1)
+}
+
+/// Independent well-formedness check of a description the library accepted (C17: "whatever they
+/// accept consists only of canonically encoded field elements" and carries no out-of-range data).
+/// `end`: one past the last valid scalar index, if known for this description's table flavour.
+pub fn strict(bytes: &[u8], end: Option<usize>) -> Result<(), String> {
+    use dusk_bytes::Serializable;
+    let (c, _) = match decode(bytes) {
+        Some(x) => x,
+        None => return Err("the accepted description is not a single well-formed MessagePack payload in a deflate stream".into()),
+    };
+    for (i, s) in c.scalars.iter().enumerate() {
+        if bool::from(dusk_bls12_381::BlsScalar::from_bytes(s).is_none()) {
+            return Err(format!("scalar {} of {} in the table is not a canonical field element", i, c.scalars.len()));
+        }
+    }
+    if c.public_inputs.windows(2).any(|w| w[0] >= w[1]) || c.public_inputs.iter().any(|r| *r >= c.constraints.len()) {
+        return Err("public-input rows are not strictly increasing rows of the description".into());
+    }
+    for (i, k) in c.constraints.iter().enumerate() {
+        if k.polynomial >= c.polynomials.len() || [k.a, k.b, k.c, k.d].iter().any(|w| *w >= c.witnesses) {
+            return Err(format!("constraint {} refers to a selector row or witness that does not exist", i));
+        }
+    }
+    if let Some(end) = end {
+        for (i, p) in c.polynomials.iter().enumerate() {
+            if p.indices().iter().any(|x| *x >= end) {
+                return Err(format!("selector row {} refers to a scalar beyond the table", i));
+            }
+        }
+    }
+    Ok(())
+}
+
 #[derive(Clone, Debug, PartialEq)]
 pub enum CcEdit {
     PiOutOfRange,
@@ -77,6 +125,9 @@ pub enum CcEdit {
     WitnessesHuge,
     WitnessesUnused(usize),
     ScalarIndexOutOfRange,
+    /// a referenced selector row points 0..=31 entries beyond the end of the scalar table
+    /// (built-in entries + the description's own): the narrow band just out of range
+    ScalarIndexJustBeyond(usize),
     PolyIndexOutOfRange,
     WitnessIndexOutOfRange,
     ScalarNonCanonical,
@@ -110,6 +161,7 @@ impl CcEdit {
             CcEdit::WitnessesHuge => "cc.witnesses_huge",
             CcEdit::WitnessesUnused(_) => "cc.witnesses_unused_labels",
             CcEdit::ScalarIndexOutOfRange => "cc.scalar_index_out_of_range",
+            CcEdit::ScalarIndexJustBeyond(_) => "cc.scalar_index_just_beyond_the_table",
             CcEdit::PolyIndexOutOfRange => "cc.poly_index_out_of_range",
             CcEdit::WitnessIndexOutOfRange => "cc.witness_index_out_of_range",
             CcEdit::ScalarNonCanonical => "cc.scalar_noncanonical",
@@ -138,6 +190,7 @@ impl CcEdit {
                 | CcEdit::PiDuplicate
                 | CcEdit::WitnessesTooSmall
                 | CcEdit::ScalarIndexOutOfRange
+                | CcEdit::ScalarIndexJustBeyond(_)
                 | CcEdit::PolyIndexOutOfRange
                 | CcEdit::WitnessIndexOutOfRange
                 | CcEdit::ScalarNonCanonical
@@ -151,7 +204,8 @@ impl CcEdit {
 }
 
 pub fn random_edit(rng: &mut Rng) -> CcEdit {
-    match rng.below(24) {
+    match rng.below(26) {
+        24 | 25 => CcEdit::ScalarIndexJustBeyond(rng.usize(32)),
         22 => CcEdit::SpareScalarNonCanonical(rng.usize(4)),
         23 => CcEdit::OrphanPolynomialBadIndex,
         20 => CcEdit::NoMultiplication,
@@ -215,6 +269,27 @@ pub fn apply(valid: &[u8], edit: &CcEdit, rng: &mut Rng) -> Option<Vec<u8>> {
             let i = rng.usize(c.polynomials.len().max(1));
             let p = c.polynomials.get_mut(i)?;
             p.q_c = usize::MAX >> rng.below(40);
+        }
+        CcEdit::ScalarIndexJustBeyond(delta) => {
+            let end = table_end(&c)?;
+            // a selector row that some constraint refers to
+            let used = c.constraints.get(rng.usize(c.constraints.len().max(1)))?.polynomial;
+            let p = c.polynomials.get_mut(used)?;
+            let slot = rng.usize(11);
+            let v = end + *delta;
+            match slot {
+                0 => p.q_m = v,
+                1 => p.q_l = v,
+                2 => p.q_r = v,
+                3 => p.q_o = v,
+                4 => p.q_f = v,
+                5 => p.q_c = v,
+                6 => p.q_arith = v,
+                7 => p.q_range = v,
+                8 => p.q_logic = v,
+                9 => p.q_fixed_group_add = v,
+                _ => p.q_variable_group_add = v,
+            }
         }
         CcEdit::PolyIndexOutOfRange => {
             let i = rng.usize(c.constraints.len().max(1));
